@@ -167,7 +167,7 @@ class FpcGen:
         if ls:
             opts += [(6, 'index'), (4, 'sum'), (2, 'len'), (3, 'lminmax')]
         if self.vars_of(fn, 'T'):
-            opts.append((3, 'fst'))
+            opts.append((5, 'fst'))
         if self.helpers and not real:
             opts.append((7, 'call'))     # self.helpers only holds completed helpers: no recursion
         k = ch.weighted(opts)
@@ -348,11 +348,11 @@ class FpcGen:
         if p.lists:
             opts += [(6, 'assignL')]
             if p.indexed_assign and fn.local_lists:
-                opts += [(4, 'store')]
+                opts += [(7, 'store')]
         if p.tuples:
             opts += [(4, 'assignT')]
             if self.vars_of(fn, 'T'):
-                opts += [(4, 'destructure')]
+                opts += [(7, 'destructure')]
         if self.mutable_R(fn):
             opts += [(8, 'if'), (5, 'if1'), (8, 'for'), (6, 'while')]
         if depth > 0 and fn.allow_with:
@@ -420,7 +420,7 @@ class FpcGen:
             self.features.add(f'if-mutates-{min(len(m), 3)}')
         elif k == 'for':
             ls = self.vars_of(fn, 'L')
-            form = ch.weighted([(5, 'list'), (4, 'range'), (2, 'zip'), (2, 'enum'), (2, 'rangelen')]) if ls else 'range'
+            form = ch.weighted([(5, 'list'), (4, 'range'), (3, 'zip'), (3, 'enum'), (3, 'rangelen')]) if ls else 'range'
             x = fn.fresh('i')
             snap = dict(fn.env)
             must = [x]
